@@ -226,7 +226,13 @@ def gen_case(r):
         if r.pct() < 25:
             # a condition with data-path arguments (resolved against each validated document)
             from . import c17
-            x = x.replace(cond=c17.gen_leaf_with_paths(r, d), cast=None)
+            pc = c17.gen_leaf_with_paths(r, d)
+            if r.coin(60):
+                # ... inside a combination (either side), so that the commuted copy moves it
+                o = G.tree(r, ("value",), "typed", 1, meaningful=True) if r.coin(70) else c17.gen_leaf_with_paths(r, d)
+                if not isinstance(o, Null):
+                    pc = Op(r.choice(["and", "or", "xor"]), pc, o) if r.coin() else Op(r.choice(["and", "or", "xor"]), o, pc)
+            x = x.replace(cond=pc, cast=None)
         y = change_rule(r, x, d)
     else:
         rules = [G.rule_for(r, d, mode="typed", cast_p=30, cond_depth=1, max_len=3) for _ in range(r.between(1, 3))]
